@@ -367,3 +367,6 @@ def decide_inconclusive(obs, results, cases):
     if obs.get('exceptions_checked', 0) == 0 or obs.get('signals_delivered', 0) == 0:
         return 'no error ending / no signal ending was observed'
     return None
+
+
+RULE = RULE + '; falsy SystemExit codes; exception classes with validating constructors and one that cannot be rebuilt in the parent; Process / Thread without target; timed accessors used first'
